@@ -29,32 +29,32 @@ type iCase struct {
 const indepLib = `  dA:
     dir: ./a
     vars: {D: {sh: pwd}}
-    cmds: ['echo "{{.K}}|dA|{{.D}}"']
+    cmds: ['printf "{{.K}}|dA|{{.D}}\\n"']
   dB:
     dir: ./b
     vars: {D: {sh: pwd}}
-    cmds: ['echo "{{.K}}|dB|{{.D}}"']
+    cmds: ['printf "{{.K}}|dB|{{.D}}\\n"']
   eA:
     env: {X: a}
     vars: {D: {sh: 'echo $X'}}
-    cmds: ['echo "{{.K}}|eA|{{.D}}"']
+    cmds: ['printf "{{.K}}|eA|{{.D}}\\n"']
   eB:
     env: {X: b}
     vars: {D: {sh: 'echo $X'}}
-    cmds: ['echo "{{.K}}|eB|{{.D}}"']
+    cmds: ['printf "{{.K}}|eB|{{.D}}\\n"']
   cV:
-    cmds: ['echo "{{.K}}|cV|{{.V}}"']
+    cmds: ['printf "{{.K}}|cV|{{.V}}\\n"']
   sV:
     vars: {D: {sh: 'echo {{.V}}'}}
-    cmds: ['echo "{{.K}}|sV|{{.D}}"']
+    cmds: ['printf "{{.K}}|sV|{{.D}}\\n"']
   mR:
     cmds:
       - for: {matrix: {X: {ref: .L}}}
-        cmd: 'echo "{{.K}}|mR|{{.ITEM.X}}"'
+        cmd: 'printf "{{.K}}|mR|{{.ITEM.X}}\\n"'
   fV:
     cmds:
       - for: {var: S}
-        cmd: 'echo "{{.K}}|fV|{{.ITEM}}"'
+        cmd: 'printf "{{.K}}|fV|{{.ITEM}}\\n"'
 `
 
 func callYAML(c iCall, k string) string {
